@@ -202,11 +202,16 @@ stringify(const string &source) {
         break;
 
       case '\'':
-        state ^= S_single_quoted;
+        // A quote mark of the other kind does not begin or end a literal.
+        if ((state & S_double_quoted) == 0) {
+          state ^= S_single_quoted;
+        }
         break;
 
       case '"':
-        state ^= S_double_quoted;
+        if ((state & S_single_quoted) == 0) {
+          state ^= S_double_quoted;
+        }
         result += '\\';
         break;
       }
@@ -607,7 +612,26 @@ r_expand(const Expansion &expansion, const vector_string &args,
          bool expand_undefined, const Ignores &ignores) const {
   std::string result;
 
+  // Set while the left operand of a following ## was an empty argument (a
+  // "placemarker"): the right operand then stands on its own and must not be
+  // glued to whatever happens to precede it.
+  bool placemarker = false;
+
+  // __VA_OPT__ contributes its contents only if the variable argument has
+  // any tokens.
+  bool have_va_args = false;
+  if (_variadic_param >= 0) {
+    for (size_t ai = (size_t)_variadic_param; ai < args.size(); ++ai) {
+      if (args[ai].find_first_not_of(" \t\r\n") != string::npos) {
+        have_va_args = true;
+      }
+    }
+  }
+
   for (const ExpansionNode &node : expansion) {
+    bool paste = node._paste && !placemarker;
+    placemarker = false;
+
     if (node._parm_number >= 0) {
       int i = node._parm_number;
 
@@ -638,16 +662,18 @@ r_expand(const Expansion &expansion, const vector_string &args,
       }
 
       if (!subst.empty()) {
-        if (result.empty() || node._paste || result.back() == '(') {
+        if (result.empty() || paste || result.back() == '(') {
           result += subst;
         } else {
           result += ' ';
           result += subst;
         }
+      } else if (!node._stringify) {
+        placemarker = true;
       }
     }
     if (!node._str.empty()) {
-      if (result.empty() || node._paste || node._str[0] == ',' || node._str[0] == ')') {
+      if (result.empty() || paste || node._str[0] == ',' || node._str[0] == ')') {
         result += node._str;
       } else {
         result += ' ';
@@ -656,13 +682,13 @@ r_expand(const Expansion &expansion, const vector_string &args,
     }
     if (!node._nested.empty()) {
       string nested_result;
-      if (node._optional && args.size() >= _num_parameters) {
+      if (node._optional && have_va_args) {
         nested_result = r_expand(node._nested, args, expand_undefined, ignores);
       }
       if (node._stringify) {
         nested_result = stringify(nested_result);
       }
-      if (result.empty() || node._paste) {
+      if (result.empty() || paste) {
         result += nested_result;
       } else {
         result += ' ';
